@@ -11,6 +11,7 @@ import (
 	"context"
 	"errors"
 	"fmt"
+	"sort"
 	"strings"
 	"time"
 
@@ -45,6 +46,7 @@ type scriptStore struct {
 	calls      *[][2]int
 	known      map[string]bool
 	answer     *storeAnswer
+	down       bool // unreachable at fetch time
 }
 
 func (s *scriptStore) StartAsyncSearch(ctx context.Context, in *pb.StartAsyncSearchRequest, _ ...grpc.CallOption) (*pb.StartAsyncSearchResponse, error) {
@@ -70,6 +72,9 @@ func (s *scriptStore) StartAsyncSearch(ctx context.Context, in *pb.StartAsyncSea
 }
 
 func (s *scriptStore) FetchAsyncSearchResult(_ context.Context, in *pb.FetchAsyncSearchResultRequest, _ ...grpc.CallOption) (*pb.FetchAsyncSearchResultResponse, error) {
+	if s.down {
+		return nil, status.Error(codes.Unavailable, "connection refused")
+	}
 	if !s.known[in.SearchId] || s.answer == nil || !s.answer.Found {
 		return nil, status.Error(codes.NotFound, "search not found")
 	}
@@ -296,6 +301,30 @@ func startCases(res *result, r *rng.R, tier string, shards []shardData, spec sea
 				q := canonQPR(&resp.QPR)
 				implCoq = fmt.Sprintf("Some (%s, %s)", casefile.Bool(resp.Done), bt.qprCoq(q))
 				impl["done"], impl["qpr"] = resp.Done, q
+			}
+		}
+		// the same fetch while the store that holds the request of one shard is unreachable: whatever the
+		// proxy answers, it must not be Done (the shard's part is missing). Judged directly, not modelled.
+		if started && len(calls) > 0 {
+			var holders []*scriptStore
+			for _, c := range clients {
+				if ss := c.(*scriptStore); ss.known[sr.resp.ID] {
+					holders = append(holders, ss)
+				}
+			}
+			if len(holders) > 0 {
+				sort.Slice(holders, func(i, j int) bool { return holders[i].shard < holders[j].shard })
+				h := rng.Pick(r, holders)
+				h.down = true
+				resp, err := ing.FetchAsyncSearchResult(context.Background(), search.FetchAsyncSearchResultRequest{ID: sr.resp.ID, Size: size})
+				h.down = false
+				res.counts = append(res.counts, "proxy-start:fetch-with-unreachable-holder")
+				if err == nil && resp.Done {
+					in2 := input()
+					in2["kind"], in2["start_case"], in2["start_replies"], in2["unreachable_at_fetch"] = "proxy-start", ci, kindText, fmt.Sprintf("s%dr%d", h.shard, h.rep)
+					res.viols = append(res.viols, violation{"proxy-done-without-unreachable-shard",
+						"Ingestor.FetchAsyncSearchResult reports Done although the store that holds the request of one shard is unreachable", in2})
+				}
 			}
 		}
 		var availCoq, callCoq []string
